@@ -62,19 +62,35 @@ theorem zipWith_keep_names (names values : List Bytes) (hl : values.length = nam
       rw [ih fs (by simpa using hl) (fun m hm => hn m (by simp [hm]))]
       rfl
 
-theorem castRecord_fields (v : Variant) (names : List Bytes) (r : Row)
+/-- with at least one value cell the fields are simply label, values, encoding, note -/
+theorem Row.fields_eq (r : Row) (h : r.values ≠ []) :
+    r.fields = r.label :: (r.values ++ [r.encoding, r.note]) := by
+  unfold Row.fields
+  cases hv : r.values with
+  | nil => exact absurd hv h
+  | cons x xs => simp
+
+theorem Row.fields_eq_of_length (r : Row) {names : List Bytes} (hne : names ≠ [])
+    (hl : r.values.length = names.length) : r.fields = r.label :: (r.values ++ [r.encoding, r.note]) := by
+  apply Row.fields_eq
+  intro h
+  rw [h] at hl
+  exact hne (List.eq_nil_of_length_eq_zero hl.symm)
+
+theorem castRecord_fields (v : Variant) (names : List Bytes) (r : Row) (hne : names ≠ [])
     (hl : r.values.length = names.length) (hn : ∀ n ∈ names, n ≠ sActions) :
     castRecord v (header names) r.fields = rowCells v r := by
+  rw [Row.fields_eq_of_length r hne hl]
   unfold castRecord rowCells encCell
   rcases Bool.eq_false_or_eq_true v.rawActions with hr | hr
   · rw [hr]
-    simp only [if_true, header, Row.fields, List.zipWith_cons_cons]
+    simp only [if_true, header, List.zipWith_cons_cons]
     have h0 : sSolution ≠ sActions := by decide
     have h2 : sSummary ≠ sActions := by decide
     rw [List.zipWith_append (by rw [hl]), zipWith_keep_names names r.values hl hn]
     simp [h0, h2]
   · rw [hr]
-    simp [Row.fields]
+    simp
 
 /-! ## the CSV layer -/
 
@@ -84,6 +100,7 @@ theorem plain_sSummary : plainField sSummary = true := by decide
 
 /-- the hypotheses of `wellFormed`, unpacked -/
 structure WFacts (sc : Scenario) (names : List Bytes) (rows : List Row) : Prop where
+  nne : names ≠ []
   nlen : names.length = sc.vars.length
   nplain : ∀ n ∈ names, plainField n = true
   nSol : ∀ n ∈ names, n ≠ sSolution
@@ -99,8 +116,8 @@ theorem wfacts {sc : Scenario} {names : List Bytes} {rows : List Row}
     (h : wellFormed sc names rows = true) : WFacts sc names rows := by
   unfold wellFormed at h
   simp only [Bool.and_eq_true, beq_iff_eq, List.all_eq_true, bne_iff_ne, ne_eq] at h
-  obtain ⟨⟨⟨⟨h1, h2⟩, h3⟩, h4⟩, h5⟩ := h
-  refine ⟨h1, fun n hn => (h2 n hn).1.1.1, fun n hn => (h2 n hn).1.1.2, fun n hn => (h2 n hn).1.2,
+  obtain ⟨⟨⟨⟨⟨h0, h1⟩, h2⟩, h3⟩, h4⟩, h5⟩ := h
+  refine ⟨by intro hnil; simp [hnil] at h0, h1, fun n hn => (h2 n hn).1.1.1, fun n hn => (h2 n hn).1.1.2, fun n hn => (h2 n hn).1.2,
     fun n hn => (h2 n hn).2, h4, h5, ?_⟩
   cases rows with
   | nil => simp at h3
@@ -151,10 +168,12 @@ theorem wellFormedRows_of (sc : Scenario) (names : List Bytes) (rows : List Row)
       have := congrArg List.length h
       simp [header] at this
   · have rf := rowFacts (w.shape row hrow)
-    refine ⟨⟨by simp [Row.fields, rf.vlen], rf.plain⟩, ?_⟩
+    have hf := Row.fields_eq_of_length row w.nne rf.vlen
+    refine ⟨⟨by rw [hf]; simp [rf.vlen], rf.plain⟩, ?_⟩
     intro h
     have := congrArg List.length h
-    simp [Row.fields] at this
+    rw [hf] at this
+    simp at this
 
 /-- **the loader's view of a well-formed summary** -/
 theorem loadTable_render (v : Variant) (sc : Scenario) (names : List Bytes) (rows : List Row)
@@ -166,7 +185,7 @@ theorem loadTable_render (v : Variant) (sc : Scenario) (names : List Bytes) (row
   congr 2
   apply List.map_congr_left
   intro r hr
-  exact castRecord_fields v names r (rowFacts (w.shape r hr)).vlen w.nAct
+  exact castRecord_fields v names r w.nne (rowFacts (w.shape r hr)).vlen w.nAct
 
 /-! ## acceptance -/
 
@@ -415,5 +434,305 @@ theorem toChars_ofChars (s : List Char) (h : ∀ c ∈ s, c.toNat < 128) : toCha
       rw [this]
       exact Char.ofNat_toNat c
     · exact ih (fun x hx => h x (by simp [hx]))
+
+/-! ## the single-request cores of the C13 theorems (stated in `Properties/C13.lean`) -/
+
+theorem roundtrip_core (v : Variant) (sc : Scenario) (names : List Bytes) (rows : List Row)
+    (h : wellFormed sc names rows = true) (hl : layoutOk v names = true)
+    (hc : encodingsReadBack v rows = true) :
+    ∃ t, loadSummary v sc (renderSummary names rows) = .ok t ∧
+      lookup v sAsIs t = .asIs ∧
+      ∀ row ∈ rows.tail, lookup v row.label t = .found row.encoding row.note := by
+  have w := wfacts h
+  refine ⟨expectedTable v names rows, loadSummary_render v sc names rows w hc, ?_, ?_⟩
+  · obtain ⟨r0, rest, hrows, hlab, _⟩ := w.first
+    have hcont := containsLabel_expected v sc names rows w r0 (by rw [hrows]; simp)
+    rw [hlab] at hcont
+    have hroute : routableLabel sAsIs = true := by decide
+    simp [lookup, hcont, hroute]
+  · intro row hrow
+    have hmem : row ∈ rows := List.mem_of_mem_tail hrow
+    have hcont := containsLabel_expected v sc names rows w row hmem
+    obtain ⟨r0, rest, hrows, hlab0, _, _, hrest⟩ := w.first
+    subst hrows
+    have hne : (row.label == sAsIs) = false := by simpa using hrest row (by simpa using hrow)
+    have hcont' : containsLabel row.label
+        { header := header names, cells := rowCells v r0 :: List.map (rowCells v) rest } = true := by
+      simpa [expectedTable] using hcont
+    have hroute := (rowFacts (w.shape row hmem)).route
+    simp only [lookup, expectedTable, List.map_cons, List.tail_cons, hcont', hroute, Bool.not_true,
+      Bool.false_eq_true, if_false, hne]
+    simp only [List.tail_cons] at hrow
+    -- with `getSolutionDetail` repaired the search covers row 0 too: the As-Is row is skipped (its label differs)
+    have hskip : findDetail v { header := header names, cells := rowCells v r0 :: List.map (rowCells v) rest } row.label
+        (if v.guards = true then rowCells v r0 :: List.map (rowCells v) rest else List.map (rowCells v) rest)
+        = findDetail v { header := header names, cells := rowCells v r0 :: List.map (rowCells v) rest } row.label
+            (List.map (rowCells v) rest) := by
+      split
+      · have rf0 := rowFacts (w.shape r0 (by simp))
+        simp only [findDetail, labelOf_rowCells v r0 rf0.label]
+        have hdiff : (some r0.label == some row.label) = false := by
+          rw [hlab0]
+          have : row.label ≠ sAsIs := hrest row hrow
+          simp [beq_eq_false_iff_ne, Ne.symm this]
+        rw [hdiff]
+        simp
+      · rfl
+    rw [hskip]
+    apply findDetail_rows v _ names sc rest (fun r hr => w.shape r (by simp [hr]))
+      (mem_of_allDistinct_cons (by simpa using w.distinct)).2 _ _ _ row hrow
+    · simp only [encodingIndex, header, List.length_cons, List.length_append, List.length_nil]
+      simp only [layoutOk, Bool.or_eq_true, beq_iff_eq] at hl
+      rcases Bool.eq_false_or_eq_true v.colsFromEnd with hv | hv
+      · simp [hv]
+      · rcases hl with hl | hl
+        · rw [hv] at hl; cases hl
+        · simp [hv, hl]
+    · simp only [noteIndex, header, List.length_cons, List.length_append, List.length_nil]
+      simp only [layoutOk, Bool.or_eq_true, beq_iff_eq] at hl
+      rcases Bool.eq_false_or_eq_true v.colsFromEnd with hv | hv
+      · simp [hv]
+      · rcases hl with hl | hl
+        · rw [hv] at hl; cases hl
+        · simp [hv, hl]
+    · simp only [encodingsReadBack, Bool.or_eq_true, List.all_eq_true] at hc
+      rcases hc with hc | hc
+      · exact Or.inl hc
+      · exact Or.inr (fun r hr => hc r (by simp [hr]))
+
+
+/-- every row of a well-formed summary denotes a set of the scenario's actions, canonically -/
+theorem encoding_denotes_core (sc : Scenario) (names : List Bytes) (rows : List Row)
+    (h : wellFormed sc names rows = true) (row : Row) (hrow : row ∈ rows) :
+    ∃ flags, BoolArchive.decode sc.nActions (toChars row.encoding) = .ok flags ∧
+      ofChars (BoolArchive.encode flags) = row.encoding := by
+  have hc := (rowFacts ((wfacts h).shape row hrow)).canon
+  unfold canonicalEncoding at hc
+  cases hd : BoolArchive.decode sc.nActions (toChars row.encoding) with
+  | error e => simp [hd] at hc
+  | ok flags => exact ⟨flags, rfl, by simpa [hd] using hc⟩
+
+
+theorem pareto_core (v : Variant) (sc : Scenario) (names : List Bytes) (rows : List Row)
+    (h : wellFormed sc names rows = true) (hc : encodingsReadBack v rows = true) :
+    ∃ t, loadSummary v sc (renderSummary names rows) = .ok t ∧
+      ∀ row ∈ rows.tail, paretoMember sc t row.encoding = some true := by
+  have w := wfacts h
+  refine ⟨expectedTable v names rows, loadSummary_render v sc names rows w hc, ?_⟩
+  intro row hrow
+  have hmem : row ∈ rows := List.mem_of_mem_tail hrow
+  obtain ⟨flags, hd, he⟩ := encoding_denotes_core sc names rows h row hmem
+  have rf := rowFacts (w.shape row hmem)
+  simp only [paretoMember, hd, he, Option.some.injEq]
+  simp only [encodingPresent, expectedTable, List.any_eq_true]
+  refine ⟨rowCells v row, ?_, ?_⟩
+  · rw [← List.map_tail]
+    exact List.mem_map.mpr ⟨row, hrow, rfl⟩
+  · have hidx : (header names).length - 2 = row.values.length + 1 := by
+      simp [header, rf.vlen]
+    rw [hidx, getElem?_rowCells_enc]
+    simp only [Option.map_some, beq_iff_eq, Option.some.injEq]
+    apply cellText_encCell
+    simp only [encodingsReadBack, Bool.or_eq_true, List.all_eq_true] at hc
+    rcases hc with hc | hc
+    · exact Or.inl hc
+    · exact Or.inr (hc row hmem)
+
+
+/-! ## a scenario without actions has no well-formed summary -/
+
+theorem decode_zero (t : List Char) : BoolArchive.decode 0 t = .error .count := by
+  unfold BoolArchive.decode
+  have h := BoolArchive.splitOn_ne_nil ':' t
+  have : (BoolArchive.splitOn ':' t).length ≠ BoolArchive.nWords 0 := by
+    simp [BoolArchive.nWords]; exact h
+  simp [this]
+
+theorem wellFormed_zero_actions (sc : Scenario) (names : List Bytes) (rows : List Row)
+    (h0 : sc.nActions = 0) : wellFormed sc names rows = false := by
+  cases rows with
+  | nil => simp [wellFormed]
+  | cons r0 rest => simp [wellFormed, h0, decode_zero]
+
+/-! ## histories: what a sequence of requests leaves in the engine -/
+
+theorem label_of_contains (v : Variant) (sc : Scenario) (names : List Bytes) (rows : List Row)
+    (w : WFacts sc names rows) (label : Bytes)
+    (h : containsLabel label (expectedTable v names rows) = true) : ∃ row ∈ rows, row.label = label := by
+  simp only [containsLabel, expectedTable, List.any_eq_true, List.mem_map] at h
+  obtain ⟨cells, ⟨row, hrow, rfl⟩, hl⟩ := h
+  rw [labelOf_rowCells v row (rowFacts (w.shape row hrow)).label] at hl
+  exact ⟨row, hrow, by simpa using hl⟩
+
+/-- what `lookup` answers on the table of a well-formed summary, for EVERY label -/
+theorem lookup_cases (v : Variant) (sc : Scenario) (names : List Bytes) (rows : List Row)
+    (h : wellFormed sc names rows = true) (hl : layoutOk v names = true)
+    (hc : encodingsReadBack v rows = true) (label : Bytes) :
+    lookup v label (expectedTable v names rows) = .notFound ∨
+    (label = sAsIs ∧ lookup v label (expectedTable v names rows) = .asIs) ∨
+    ∃ row ∈ rows.tail, row.label = label ∧
+      lookup v label (expectedTable v names rows) = .found row.encoding row.note := by
+  have w := wfacts h
+  obtain ⟨t, ht, hasis, hrest⟩ := roundtrip_core v sc names rows h hl hc
+  rw [loadSummary_render v sc names rows w hc] at ht
+  cases ht
+  rcases Bool.eq_false_or_eq_true (routableLabel label) with hr | hr
+  · rcases Bool.eq_false_or_eq_true (containsLabel label (expectedTable v names rows)) with hcont | hcont
+    · obtain ⟨row, hrow, rfl⟩ := label_of_contains v sc names rows w label hcont
+      obtain ⟨r0, rest, hrows, hlab0, _, _, hne⟩ := w.first
+      by_cases he : row.label = sAsIs
+      · exact Or.inr (Or.inl ⟨he, by rw [he]; exact hasis⟩)
+      · refine Or.inr (Or.inr ⟨row, ?_, rfl, ?_⟩)
+        · subst hrows
+          rcases List.mem_cons.mp hrow with rfl | hr'
+          · exact absurd hlab0 he
+          · simpa using hr'
+        · apply hrest
+          subst hrows
+          rcases List.mem_cons.mp hrow with rfl | hr'
+          · exact absurd hlab0 he
+          · simpa using hr'
+    · left; simp [lookup, hr, hcont]
+  · left; simp [lookup, hr]
+
+theorem eq_of_label_eq {rows : List Row} (hd : allDistinct (rows.map (·.label)) = true) {a b : Row}
+    (ha : a ∈ rows) (hb : b ∈ rows) (h : a.label = b.label) : a = b := by
+  induction rows with
+  | nil => cases ha
+  | cons x xs ih =>
+    obtain ⟨hnot, hrest⟩ := mem_of_allDistinct_cons (by simpa using hd)
+    rcases List.mem_cons.mp ha with rfl | ha' <;> rcases List.mem_cons.mp hb with rfl | hb'
+    · rfl
+    · exact absurd (List.mem_map.mpr ⟨b, hb', h.symm⟩) hnot
+    · exact absurd (List.mem_map.mpr ⟨a, ha', h⟩) hnot
+    · exact ih hrest ha' hb'
+
+/-- the engine holds the summary `(names, rows)`: it is configured with `sc`, its table is the one the summary
+loads as, and whatever its pool holds is the row of that summary the label names -/
+structure Holds (v : Variant) (sc : Scenario) (names : List Bytes) (rows : List Row) (e : Engine) : Prop where
+  hsc : e.sc = sc
+  htable : e.table = some (expectedTable v names rows)
+  hpool : ∀ p ∈ e.pool, ∃ row ∈ rows.tail, p.1 = row.label ∧ p.2 = cachedOf sc row.encoding row.note
+
+/-- an accepted POST of a well-formed summary establishes `Holds` from ANY engine state — if the pool is reset -/
+theorem holds_after_post (v : Variant) (hp : v.poolReset = true) (e : Engine) (names : List Bytes) (rows : List Row)
+    (h : wellFormed e.sc names rows = true) (hc : encodingsReadBack v rows = true) :
+    (doPost v e (renderSummary names rows)).2 = .ok ∧
+    Holds v e.sc names rows (doPost v e (renderSummary names rows)).1 := by
+  unfold doPost
+  rw [loadSummary_render v e.sc names rows (wfacts h) hc]
+  refine ⟨rfl, rfl, rfl, ?_⟩
+  simp [hp]
+
+theorem pooledOr_holds {v : Variant} {sc : Scenario} {names : List Bytes} {rows : List Row} {e : Engine}
+    (H : Holds v sc names rows e) (label : Bytes) (miss : Engine × Resp) (hm : Holds v sc names rows miss.1) :
+    Holds v sc names rows (pooledOr e label miss).1 := by
+  unfold pooledOr
+  split
+  · exact H
+  · exact hm
+
+/-- every request that keeps the summary and the scenario keeps `Holds` -/
+theorem holds_step (v : Variant) (sc : Scenario) (names : List Bytes) (rows : List Row)
+    (h : wellFormed sc names rows = true) (hl : layoutOk v names = true) (hc : encodingsReadBack v rows = true)
+    (e : Engine) (H : Holds v sc names rows e) (r : Req) (hk : keeps v e r = true) :
+    Holds v sc names rows (step v e r).1 := by
+  cases r with
+  | scenario sc' => simp [keeps] at hk
+  | post text =>
+    simp only [keeps] at hk
+    simp only [step, doPost]
+    split
+    · rename_i t ht; rw [ht] at hk; simp at hk
+    · exact H
+  | patch enc =>
+    simp only [step, doPatch]
+    split
+    · split <;> exact H
+    · split
+      · exact H
+      · exact ⟨H.hsc, H.htable, H.hpool⟩
+  | get label =>
+    simp only [step, doGet, H.htable]
+    rcases lookup_cases v sc names rows h hl hc label with hn | ⟨_, ha⟩ | ⟨row, hrow, hlab, hf⟩
+    · simp only [hn]; exact H
+    · simp only [ha]; exact H
+    · simp only [hf]
+      apply pooledOr_holds H
+      split
+      · exact H
+      · refine ⟨H.hsc, rfl, ?_⟩
+        intro p hp
+        rcases List.mem_cons.mp hp with rfl | hp'
+        · exact ⟨row, hrow, hlab.symm, by simp only [H.hsc]⟩
+        · exact H.hpool p hp'
+
+theorem holds_exec (v : Variant) (sc : Scenario) (names : List Bytes) (rows : List Row)
+    (h : wellFormed sc names rows = true) (hl : layoutOk v names = true) (hc : encodingsReadBack v rows = true)
+    (reqs : List Req) (e : Engine) (H : Holds v sc names rows e) (hq : Quiet v e reqs) :
+    Holds v sc names rows (exec v e reqs) := by
+  induction reqs generalizing e with
+  | nil => exact H
+  | cons r rs ih =>
+    obtain ⟨hk, hq'⟩ := hq
+    exact ih (step v e r).1 (holds_step v sc names rows h hl hc e H r hk) hq'
+
+/-- GET of a row's label on an engine that holds the summary: the row, whether pooled already or not -/
+theorem get_of_holds (v : Variant) (sc : Scenario) (names : List Bytes) (rows : List Row)
+    (h : wellFormed sc names rows = true) (hl : layoutOk v names = true) (hc : encodingsReadBack v rows = true)
+    (e : Engine) (H : Holds v sc names rows e) (row : Row) (hrow : row ∈ rows.tail) (flags : List Bool)
+    (hf : BoolArchive.decode sc.nActions (toChars row.encoding) = .ok flags) :
+    (doGet v e row.label).2 = .found ⟨row.encoding, some row.note, true, some flags⟩ := by
+  have w := wfacts h
+  have hpa : poolActive sc.nActions row.encoding = some flags := poolActive_of_decode _ _ _ hf
+  have hcached : cachedOf sc row.encoding row.note = ⟨row.encoding, some row.note, true, some flags⟩ := by
+    simp [cachedOf, hpa]
+  simp only [doGet, H.htable]
+  rcases lookup_cases v sc names rows h hl hc row.label with hn | ⟨ha, _⟩ | ⟨row', hrow', hlab, hfound⟩
+  · -- impossible: the label is in the table
+    obtain ⟨t, ht, _, hrest⟩ := roundtrip_core v sc names rows h hl hc
+    rw [loadSummary_render v sc names rows w hc] at ht
+    cases ht
+    rw [hrest row hrow] at hn
+    cases hn
+  · obtain ⟨r0, rest, hrows, _, _, _, hne⟩ := w.first
+    subst hrows
+    exact absurd ha (hne row (by simpa using hrow))
+  · have : row' = row :=
+      eq_of_label_eq w.distinct (List.mem_of_mem_tail hrow') (List.mem_of_mem_tail hrow) hlab
+    subst this
+    simp only [hfound]
+    unfold pooledOr
+    split
+    · rename_i lab c hfind
+      have hmem := List.mem_of_find?_eq_some hfind
+      have hlabp : lab = row'.label := by
+        have := List.find?_some hfind
+        simpa using this
+      obtain ⟨row'', hrow'', hl'', hc''⟩ := H.hpool _ hmem
+      simp only at hl'' hc''
+      have : row'' = row' :=
+        eq_of_label_eq w.distinct (List.mem_of_mem_tail hrow'') (List.mem_of_mem_tail hrow) (by rw [← hl'', hlabp])
+      subst this
+      rw [hc'', hcached]
+    · simp only [H.hsc, hpa, hcached]
+
+theorem getAsIs_of_holds (v : Variant) (sc : Scenario) (names : List Bytes) (rows : List Row)
+    (h : wellFormed sc names rows = true) (hl : layoutOk v names = true) (hc : encodingsReadBack v rows = true)
+    (e : Engine) (H : Holds v sc names rows e) :
+    (doGet v e sAsIs).2 = .found (asIsCached sc) := by
+  obtain ⟨t, ht, hasis, _⟩ := roundtrip_core v sc names rows h hl hc
+  rw [loadSummary_render v sc names rows (wfacts h) hc] at ht
+  cases ht
+  simp only [doGet, H.htable, hasis, H.hsc]
+
+theorem patch_of_holds (v : Variant) (sc : Scenario) (names : List Bytes) (rows : List Row)
+    (h : wellFormed sc names rows = true) (hc : encodingsReadBack v rows = true)
+    (e : Engine) (H : Holds v sc names rows e) (row : Row) (hrow : row ∈ rows.tail) :
+    (doPatch e row.encoding).2 = .member (some true) := by
+  obtain ⟨t, ht, hm⟩ := pareto_core v sc names rows h hc
+  rw [loadSummary_render v sc names rows (wfacts h) hc] at ht
+  cases ht
+  simp only [doPatch, H.htable, H.hsc, hm row hrow]
 
 end Crem.EngineSummary
